@@ -11,9 +11,9 @@ Proof.
   destruct c0 as [[] [] [] [] [] [] [] []]; reflexivity.
 Qed.
 Lemma spec_comment_shape raw i :
-  spec_comment raw i = sp (if is_line_cmt raw then i else 0) ++ spec_comment_inline raw.
+  spec_comment raw i = sp i ++ spec_comment_inline raw.
 Proof.
-  unfold spec_comment, spec_comment_inline, comment_rebuild, is_line_cmt, mk_inline. cbn [ck ctxt cinline].
+  unfold spec_comment, spec_comment_inline, comment_rebuild, mk_inline. cbn [ck ctxt cinline].
   rewrite cinline_from_cst. destruct (ck (comment_from_cst raw)); reflexivity.
 Qed.
 Lemma own_line_eq g k : own_line g k = true -> g = LF :: blank g ++ sp k.
